@@ -171,8 +171,11 @@ def check_c14(run: Run, prog: Program) -> None:
         "decides one clause: 'dual ... works for every quadric class' - every reconstruction type(self)(...) in a method of "
         "the quadric family (dual, and through the call graph is_tangent) is accepted by the constructor of every concrete "
         "subclass that inherits the method; plus the error discipline of NotReducible (raised, reachable from components, consumed "
-        "only by intersect, raised as soon as one member of a collection is irreducible). NOT decided: all numeric clauses "
-        "(intersection points, tangency, pole/polar reciprocity, involution)."
+        "only by intersect, raised as soon as one member of a collection is irreducible); and (E19.polar) the tangent / polar / dual clauses as polynomial "
+        "identities for a symbolic symmetric matrix Q and symbolic complex points, in the plane and in 3-space: tangent(p).p and the value contains(p) compares with zero "
+        "are p^T Q p; polar(p).r = polar(r).p; the value is_tangent compares with zero for the hyperplane Q p is det Q (p^T Q p), with `inv` read as the adjugate; "
+        "dual(dual(Q)) ~ Q with the dual flag flipped twice. NOT decided: the intersection points of intersect(line), tangents from an outside point, "
+        "collections, the specialised classes' own constructors (C13)."
     )
     quad = prog.cls("QuadricTensor")
     n = kinds.rule_K3(run, prog, family=quad)
@@ -187,6 +190,12 @@ def check_c14(run: Run, prog: Program) -> None:
     if dual is not None and n == 0:
         run.add("E6.K3", dual.short, "reconstruction", UNDECIDED,
                 "dual no longer reconstructs through type(self) / a class-valued local; its result class is not judged", dual.loc)
+    # the value-level clauses for a symbolic quadric: tangent / polar / dual / is_tangent as polynomial identities
+    from geolint import quadforms as _qf
+
+    npol = _qf.rule_quadric_duality(run, prog)
+    run.floor("tangent / polar / dual identities (found, decided or not)", npol, 5)
+    run.stats["duality_identities"] = npol
     # is_tangent inherits the verdict of dual through the call graph: listed for the reader
     it = prog.lookup(quad, "is_tangent")
     if it is not None and dual is not None:
